@@ -42,6 +42,7 @@ type respScript struct {
 	FailAt               int             // index of the callback invocation that fails (-1 none)
 	Packets              []srvPacket
 	Insert               bool
+	CutAfter             int64 // > 0: the connection ends (EOF) after this many bytes of the response
 }
 
 func (s *respScript) Neg() int {
@@ -533,6 +534,11 @@ func runResponse(s *respScript, seg func(avail, want int) int) *execResult {
 			return
 		}
 		res.Client = sim.Client
+		if s.CutAfter > 0 {
+			// the server goes away after CutAfter bytes of the response
+			d := sim.Conn.Delivered()
+			sim.Conn.Locked(func() { sim.Conn.ReadCutAfter = d + s.CutAfter })
+		}
 		res.Err = sim.Client.Do(ctx, q)
 	})
 	res.SrvErr = sim.Srv.Err
